@@ -393,7 +393,7 @@ struct FipsRaceSim : Sim {
                 case 0: return g_isal_self_tests();
                 case 1: return isal_sha256_ctx_mgr_init((ISAL_SHA256_HASH_CTX_MGR *) a.mgr);
                 case 2: return isal_aes_keyexp_128(a.key, a.enc, a.dec);
-                case 3: return isal_aes_cbc_enc_128(a.in, a.iv, a.enc, a.out, 16);
+                case 3: return isal_aes_cbc_enc_128(a.in, a.iv, a.enc, a.out, (t & 1) ? 0 : 16); // odd tasks: an empty message
                 case 4: return isal_sha1_ctx_mgr_init((ISAL_SHA1_HASH_CTX_MGR *) a.mgr);
                 case 5: return isal_sha512_ctx_mgr_init((ISAL_SHA512_HASH_CTX_MGR *) a.mgr);
                 case 6: return isal_aes_keyexp_256(a.key, a.enc, a.dec);
@@ -1108,9 +1108,14 @@ void FipsGateSim::do_entry(const GEntry &ge, const Op &o, Env &e, RunResult &r)
                 e.call("(internal preparation)", fn, a);
         };
 
+        // "forall otherwise-valid arguments" includes the degenerate ones: a quarter of the calls carry an empty message where
+        // the API allows one (the gate must not depend on there being work to do)
+        const bool degen = ((o.d >> 12) % 4) == 0;
+        if (degen)
+                r.cov.hit("probe_gate_call_with_empty_message");
         switch (ge.driver) {
         case D_CBC: {
-                size_t len = 16 * (1 + o.b % 9);
+                size_t len = degen ? 0 : 16 * (1 + o.b % 9);
                 uint8_t *key = in(keybytes3[k], 1, 1);
                 uint8_t *enc = e.mem.alloc(16 * 15, 16, START_FLUSH, &e.hidden, "enc schedule", R_OBJECT);
                 uint8_t *dec = e.mem.alloc(16 * 15, 16, START_FLUSH, &e.hidden, "dec schedule", R_OBJECT);
@@ -1150,7 +1155,7 @@ void FipsGateSim::do_entry(const GEntry &ge, const Op &o, Env &e, RunResult &r)
                 uint8_t *iv = in(12, 1, 2);
                 size_t aadl = o.b % 24;
                 uint8_t *aad = in(aadl, 1, 3);
-                size_t len = nt ? 64 * (o.c % 4) : (size_t) (o.c % 200);
+                size_t len = degen ? 0 : nt ? 64 * (o.c % 4) : (size_t) (o.c % 200);
                 size_t al = nt ? 64 : 1;
                 if (ge.driver == D_GCM_ONESHOT) {
                         uint8_t *gctx = out(sizeof(struct isal_gcm_context_data), 8, "gcm context");
@@ -1226,7 +1231,7 @@ void FipsGateSim::do_entry(const GEntry &ge, const Op &o, Env &e, RunResult &r)
                         *(uint32_t *) (ctx + ctx_status_off[k]) = ISAL_HASH_CTX_STS_COMPLETE;
                         *(uint32_t *) (ctx + ctx_status_off[k] + 4) = 0;
                         outs.push_back(ctx);
-                        size_t len = o.c % 300;
+                        size_t len = degen ? 0 : o.c % 300;
                         uint8_t *msg = in(len, 1, 1);
                         finish_args();
                         rc = e.call(nm, ge.fn, { U(mgr), U(ctx), U(slot), U(msg), len, ISAL_HASH_ENTIRE });
@@ -1254,7 +1259,7 @@ void FipsGateSim::do_entry(const GEntry &ge, const Op &o, Env &e, RunResult &r)
                         direct(int_mh_init[k], { U(ctx) });
                 outs.push_back(ctx);
                 if (ge.driver == D_MH_UPDATE) {
-                        size_t len = o.c % 3000;
+                        size_t len = degen ? 0 : o.c % 3000;
                         uint8_t *msg = in(len, 1, 1);
                         finish_args();
                         rc = e.call(nm, ge.fn, { U(ctx), U(msg), len });
